@@ -7,7 +7,7 @@ static unsigned long long n_eval, n_nontriv, n_equiv;
 static int thorough;
 
 static const size_t MLQ[17] = { 0, 1, 15, 16, 17, 31, 32, 33, 63, 64, 65, 127, 128, 129, 255, 256, 257 };
-static const size_t ADQ[4] = { 0, 1, 16, 17 };
+static const size_t ADQ[5] = { 0, 1, 16, 17, 225 };   /* 225 (past the 224-byte GHASH aggregation width) only at two message lengths */
 
 typedef struct {
     unsigned char kbuf[32], nonce[32], tag[32], *m, *ad, *c;
@@ -77,7 +77,7 @@ static void flip(unsigned char *dst, const unsigned char *src, size_t len, size_
 
 static void cons_case(const cons *C, size_t mlen, size_t adlen)
 {
-    tuple A, B; size_t T = C->tlen, b, l; unsigned char *xa = malloc(mlen + 128), *xb = malloc(mlen + 128), ya[64], yb[64];
+    tuple A, B; size_t T = C->tlen, b, l; unsigned char *xa = malloc(mlen + adlen + 128), *xb = malloc(mlen + adlen + 128), ya[64], yb[64];
     tuple_make(C, &A, mlen, adlen, 0, (int) mlen); tuple_make(C, &B, mlen, adlen, 1, (int) mlen);
     /* sanity: the untouched tuples are accepted (otherwise every rejection below would be vacuous) */
     { unsigned char *dm = malloc(mlen + 64); int r = C->decd(dm, A.c, mlen, A.tag, adlen ? A.ad : NULL, adlen, A.nonce, &A.kc);
@@ -213,9 +213,9 @@ static void sign_case(size_t mlen)
 /* ---- secretstream pull ---- */
 static void stream_case(size_t mlen, size_t adlen)
 {
-    crypto_secretstream_xchacha20poly1305_state sA, sB, pA, pB, p0A, p0B; unsigned char kA[32], kB[32], hA[24], hB[24], *mA = malloc(mlen + 16), *mB = malloc(mlen + 16), ad[32], ad2[32],
+    crypto_secretstream_xchacha20poly1305_state sA, sB, pA, pB, p0A, p0B; unsigned char kA[32], kB[32], hA[24], hB[24], *mA = malloc(mlen + 16), *mB = malloc(mlen + 16), ad[256], ad2[256],
         *cA = malloc(mlen + 64), *cB = malloc(mlen + 64), *x = malloc(mlen + 64), *y = malloc(mlen + 64), *oa = malloc(mlen + 96), *ob = malloc(mlen + 96), tg; ull l; size_t full = mlen + 17, b, q; char key[160];
-    vf_pat(kA, 32, PAT_R1, 341); vf_pat(kB, 32, PAT_R2, 342); vf_pat(mA, mlen, PAT_C, 343); vf_pat(mB, mlen, PAT_H, 344); vf_pat(ad, 32, PAT_R1, 345);
+    vf_pat(kA, 32, PAT_R1, 341); vf_pat(kB, 32, PAT_R2, 342); vf_pat(mA, mlen, PAT_C, 343); vf_pat(mB, mlen, PAT_H, 344); vf_pat(ad, 256, PAT_R1, 345);
     crypto_secretstream_xchacha20poly1305_init_push(&sA, hA, kA); crypto_secretstream_xchacha20poly1305_init_push(&sB, hB, kB);
     crypto_secretstream_xchacha20poly1305_push(&sA, cA, &l, mA, mlen, adlen ? ad : NULL, adlen, 0); crypto_secretstream_xchacha20poly1305_push(&sB, cB, &l, mB, mlen, adlen ? ad : NULL, adlen, 0);
     crypto_secretstream_xchacha20poly1305_init_pull(&p0A, hA, kA); crypto_secretstream_xchacha20poly1305_init_pull(&p0B, hB, kB);
@@ -239,7 +239,8 @@ static void stream_case(size_t mlen, size_t adlen)
 static size_t LENS[320]; static int nlens;
 static void do_item(long it)
 {
-    size_t mlen = LENS[it / 4], adlen = ADQ[it % 4]; int ci;
+    size_t mlen = LENS[it / 5], adlen = ADQ[it % 5]; int ci;
+    if (adlen == 225 && mlen != 0 && mlen != 33) return;
     for (ci = 0; ci < NCONS; ci++) { if (!CONS[ci].avail()) continue; if (!CONS[ci].has_ad && adlen) continue; cons_case(&CONS[ci], mlen, adlen); }
     stream_case(mlen, adlen);
     if (adlen == 0) {
@@ -262,7 +263,7 @@ int main(void)
     if (sodium_init() < 0) return 2;
     printf("INFO features avx2=%d ssse3=%d sse2=%d aesni=%d gcm=%d\n", sodium_runtime_has_avx2(), sodium_runtime_has_ssse3(), sodium_runtime_has_sse2(), sodium_runtime_has_aesni(), crypto_aead_aes256gcm_is_available());
     if (thorough) for (i = 0; i <= 300; i++) LENS[nlens++] = i; else for (i = 0; i < 17; i++) LENS[nlens++] = MLQ[i];
-    vf_parallel(16, 0, nlens * 4L, do_item, fin);
+    vf_parallel(16, 0, nlens * 5L, do_item, fin);
     vf_sample("aead_aegis128l mlen=33 adlen=0: tag bit 200 flipped -> every decrypt form must fail, *mlen_p = 0, and the 33-byte output buffer must be identical for two different (key, plaintext) tuples");
     vf_sample("secretbox_xsalsa20poly1305 combined input truncated to 15 bytes (< MACBYTES) -> rejected");
     vf_sample("box_curve25519xsalsa20poly1305 sender public key bit 255 flipped -> skipped, X25519 ignores it by specification (counted in spec_equivalent_skipped)");
